@@ -1,6 +1,394 @@
-//! C14 — not implemented yet.
+//! C14 — Nodes that disagree about the data refuse to answer.
+//!
+//! Code under test: `coordinator::execute_fragment` (digest interlock) and the shard-index range
+//! check of `coordinator::shard_context`.
+//!
+//! Generator: an initiator copy of a real Parquet table and a worker copy in another directory
+//! that is byte-identical (control) or differs in one respect: a file renamed, the same rows
+//! written with another row-group size, one row more / fewer, the same rows with the dictionary
+//! toggled or one value widened (only `total_byte_size` moves), a file with rows missing; plus
+//! protocol faults on identical copies: a digest that is not the initiator's, a shard index
+//! outside 0..shard_count.
+//!
+//! Oracle: the expected outcome is derived from the harness's own footer reads — the
+//! split-relevant inventory is the list of (file name, row-group index, rows, total_byte_size)
+//! over non-empty row groups. Equal inventories + the initiator's digest + index in range =>
+//! every fragment must run and the union of the fragments' rows over all shard indices must be
+//! exactly the worker's table; different inventories, a foreign digest or an index out of range
+//! => `execute_fragment` must return Err (for every shard index).
+use super::c13::make_table;
 use super::Property;
+use crate::data::{canon_sort, fmt_rows, multiset_eq, pick_idx, ParquetLayout, Rows, Table, TempDir, Value};
+use crate::engine::block_on;
+use crate::runner::*;
+use proptest::prelude::*;
+use query_engine::distributed::coordinator::{execute_fragment, splits_of, FragmentRequest};
+use query_engine::ExecutionContext;
+use serde::{Deserialize, Serialize};
+use std::path::Path;
+
+#[derive(Clone, Debug, Serialize, Deserialize, PartialEq)]
+pub enum Variant {
+    Identical,
+    Renamed { file: u16 },
+    RowGroupSize(usize),
+    RowAdded,
+    RowDropped,
+    DictionaryToggled,
+    ValueWidened { row: u16, extra: u8 },
+    FileDropped { file: u16 },
+    /// identical copies, but the request carries digest ^ xor (xor != 0)
+    ForeignDigest { xor: u64 },
+    /// identical copies, shard_index = shard_count + over
+    IndexOutOfRange { over: usize },
+}
+
+#[derive(Clone, Debug, Serialize, Deserialize)]
+pub struct FragCase {
+    pub rows: usize,
+    pub seed: u32,
+    pub layout: ParquetLayout,
+    pub shard_count: usize,
+    pub variant: Variant,
+    pub aggregate_sql: bool,
+}
+
+type Inventory = Vec<(String, usize, i64, i64)>;
+
+/// split-relevant inventory from the harness's own footer reads
+fn inventory(dir: &Path) -> Inventory {
+    use parquet::file::reader::{FileReader, SerializedFileReader};
+    let mut files: Vec<_> = std::fs::read_dir(dir).unwrap().map(|e| e.unwrap().path()).collect();
+    files.sort();
+    let mut out = vec![];
+    for f in files {
+        let r = SerializedFileReader::new(std::fs::File::open(&f).unwrap()).unwrap();
+        let name = f.file_name().unwrap().to_string_lossy().into_owned();
+        for (i, g) in r.metadata().row_groups().iter().enumerate() {
+            if g.num_rows() > 0 {
+                out.push((name.clone(), i, g.num_rows(), g.total_byte_size()));
+            }
+        }
+    }
+    out.sort();
+    out
+}
+
+fn describe_difference(a: &Inventory, b: &Inventory) -> String {
+    let names = |v: &Inventory| {
+        let mut n: Vec<String> = v.iter().map(|x| x.0.clone()).collect();
+        n.dedup();
+        n
+    };
+    let rows = |v: &Inventory| v.iter().map(|x| x.2).sum::<i64>();
+    let layout = |v: &Inventory| v.iter().map(|x| (x.0.clone(), x.1, x.2)).collect::<Vec<_>>();
+    let mut d = vec![];
+    if names(a) != names(b) {
+        d.push("file_names");
+    }
+    if rows(a) != rows(b) {
+        d.push("row_count");
+    }
+    if rows(a) == rows(b) && names(a) == names(b) && layout(a) != layout(b) {
+        d.push("row_group_layout");
+    }
+    if layout(a) == layout(b) && a != b {
+        d.push("byte_sizes_only");
+    }
+    d.join("+")
+}
+
+fn case_strategy(tier: Tier) -> BoxedStrategy<FragCase> {
+    let max_rows = tier.pick(80usize, 300usize);
+    let variant = prop_oneof![
+        3 => Just(Variant::Identical),
+        2 => any::<u16>().prop_map(|file| Variant::Renamed { file }),
+        2 => prop_oneof![Just(1usize), Just(2), Just(3), Just(5), Just(8), Just(13), Just(40), Just(1000)].prop_map(Variant::RowGroupSize),
+        2 => Just(Variant::RowAdded),
+        2 => Just(Variant::RowDropped),
+        2 => Just(Variant::DictionaryToggled),
+        2 => (any::<u16>(), 1u8..40).prop_map(|(row, extra)| Variant::ValueWidened { row, extra }),
+        1 => any::<u16>().prop_map(|file| Variant::FileDropped { file }),
+        2 => prop_oneof![Just(1u64), Just(1u64 << 63), 1u64..=u64::MAX].prop_map(|xor| Variant::ForeignDigest { xor }),
+        2 => prop_oneof![3 => Just(0usize), 1 => 1usize..10, 1 => Just(usize::MAX / 2)].prop_map(|over| Variant::IndexOutOfRange { over }),
+    ];
+    (
+        prop_oneof![1 => 0usize..4, 9 => 4usize..=max_rows],
+        any::<u32>(),
+        proptest::collection::vec(0usize..=max_rows, 0..=3),
+        prop_oneof![Just(1usize), Just(2), Just(3), Just(5), Just(8), Just(13), Just(40), Just(1000)],
+        prop_oneof![3 => Just(1u8), 1 => Just(0u8), 1 => Just(2u8)],
+        any::<bool>(),
+        1usize..=8,
+        variant,
+        any::<bool>(),
+    )
+        .prop_map(|(rows, seed, file_cuts, row_group_size, stats, dictionary, shard_count, variant, aggregate_sql)| FragCase {
+            rows,
+            seed,
+            layout: ParquetLayout { file_cuts, row_group_size, stats, dictionary },
+            shard_count,
+            variant,
+            aggregate_sql,
+        })
+        .boxed()
+}
+
+fn ctx_over(dir: &Path) -> Result<ExecutionContext, String> {
+    let mut ctx = ExecutionContext::new();
+    ctx.register_parquet("t", dir).map_err(|e| e.to_string())?;
+    Ok(ctx)
+}
+
+pub struct Interlock;
+impl Check for Interlock {
+    type Case = FragCase;
+    fn name(&self) -> &'static str {
+        "fragment_interlock"
+    }
+    fn rule(&self) -> &'static str {
+        "the worker copy differs from the initiator's in a split-relevant attribute (checked on the footers), or the request carries a foreign digest / an out-of-range shard index; identical-copy controls with >=2 shards and >=1 row also count"
+    }
+    fn cases(&self, tier: Tier) -> u32 {
+        tier.pick(1500, 15_000)
+    }
+    fn strategy(&self, tier: Tier) -> BoxedStrategy<FragCase> {
+        case_strategy(tier)
+    }
+    fn test(&self, c: &FragCase, obs: &mut Obs) -> Verdict {
+        if c.shard_count == 0 || c.shard_count > 64 {
+            return Verdict::Discard("shard_count outside 1..64".into());
+        }
+        let tmp = TempDir::new("c14");
+        let init_dir = tmp.path().join("initiator").join("t");
+        let work_dir = tmp.path().join("worker").join("mnt").join("t");
+        let table = make_table(c.rows, c.seed);
+        crate::data::write_parquet(&table, &init_dir, &c.layout);
+
+        // ---- the worker's copy
+        let mut wtable: Table = table.clone();
+        let mut wlayout = c.layout.clone();
+        let mut label = "identical";
+        match &c.variant {
+            Variant::Identical => {}
+            Variant::ForeignDigest { .. } => label = "foreign_digest",
+            Variant::IndexOutOfRange { .. } => label = "index_out_of_range",
+            Variant::Renamed { .. } => label = "renamed",
+            Variant::FileDropped { .. } => label = "file_dropped",
+            Variant::RowGroupSize(n) => {
+                label = "row_group_size";
+                wlayout.row_group_size = if *n == c.layout.row_group_size { *n + 1 } else { *n };
+            }
+            Variant::RowAdded => {
+                label = "row_added";
+                let i = wtable.rows.len();
+                wtable.rows.push(vec![Value::Int(i as i64), Value::Int(0), Value::Null, Value::Str("x".into())]);
+            }
+            Variant::RowDropped => {
+                label = "row_dropped";
+                wtable.rows.pop();
+            }
+            Variant::DictionaryToggled => {
+                label = "dictionary_toggled";
+                wlayout.dictionary = !wlayout.dictionary;
+            }
+            Variant::ValueWidened { row, extra } => {
+                label = "value_widened";
+                if !wtable.rows.is_empty() {
+                    let i = pick_idx(*row, wtable.rows.len());
+                    let old = match &wtable.rows[i][3] {
+                        Value::Str(s) => s.clone(),
+                        _ => String::new(),
+                    };
+                    wtable.rows[i][3] = Value::Str(format!("{}{}", old, "w".repeat(*extra as usize)));
+                }
+            }
+        }
+        let wfiles = crate::data::write_parquet(&wtable, &work_dir, &wlayout);
+        match &c.variant {
+            Variant::Renamed { file } => {
+                // prefer a file that holds rows (renaming an empty file changes nothing a split sees)
+                let with_rows: Vec<&std::path::PathBuf> = wfiles.iter().filter(|f| super::c13::read_row_groups(f).iter().any(|n| *n > 0)).collect();
+                let pool: Vec<&std::path::PathBuf> = if with_rows.is_empty() { wfiles.iter().collect() } else { with_rows };
+                let f = pool[pick_idx(*file, pool.len())];
+                let to = f.with_file_name(format!("renamed-{}", f.file_name().unwrap().to_string_lossy()));
+                std::fs::rename(f, to).unwrap();
+            }
+            Variant::FileDropped { file } => {
+                if wfiles.len() >= 2 {
+                    let with_rows: Vec<&std::path::PathBuf> = wfiles.iter().filter(|f| super::c13::read_row_groups(f).iter().any(|n| *n > 0)).collect();
+                    let pool: Vec<&std::path::PathBuf> = if with_rows.is_empty() { wfiles.iter().collect() } else { with_rows };
+                    std::fs::remove_file(pool[pick_idx(*file, pool.len())]).unwrap();
+                }
+            }
+            _ => {}
+        }
+        obs.label(format!("variant:{}", label));
+
+        // ---- what the footers say (own reader)
+        let inv_i = inventory(&init_dir);
+        let inv_w = inventory(&work_dir);
+        let copies_differ = inv_i != inv_w;
+        let wants_difference = !matches!(c.variant, Variant::Identical | Variant::ForeignDigest { .. } | Variant::IndexOutOfRange { .. });
+        if wants_difference {
+            if !copies_differ {
+                // e.g. dictionary toggle that did not move total_byte_size, dropped an empty file
+                return Verdict::Discard(format!("variant {} left the split-relevant footer content unchanged", label));
+            }
+            obs.label(format!("differs_in:{}", describe_difference(&inv_i, &inv_w)));
+        } else if copies_differ {
+            return Verdict::Fail(format!("harness error: two writes of the same table differ: {:?} vs {:?}", inv_i, inv_w));
+        }
+
+        let init = match ctx_over(&init_dir) {
+            Ok(c) => c,
+            Err(e) => return Verdict::Fail(format!("initiator cannot register its table: {}", e)),
+        };
+        let worker = match ctx_over(&work_dir) {
+            Ok(c) => c,
+            Err(e) => return Verdict::Fail(format!("worker cannot register its table: {}", e)),
+        };
+        let digest = match splits_of(&init, "t", c.shard_count) {
+            Ok(s) => s.digest(),
+            Err(e) => return Verdict::Fail(format!("initiator cannot enumerate its splits: {}", e)),
+        };
+        let sql = if c.aggregate_sql { "SELECT COUNT(*), SUM(id) FROM t".to_string() } else { "SELECT id, k, a, s FROM t".to_string() };
+        let run = |shard_index: usize, splits_digest: u64| -> Result<(Rows, i64), String> {
+            let req = FragmentRequest { sql: sql.clone(), table: "t".into(), shard_index, shard_count: c.shard_count, splits_digest };
+            let r = std::panic::catch_unwind(std::panic::AssertUnwindSafe(|| block_on(execute_fragment(&worker, &req))));
+            match r {
+                Ok(Ok((q, stats))) => Ok((crate::data::batches_to_rows(&q.batches), stats.rows)),
+                Ok(Err(e)) => Err(e.to_string()),
+                Err(p) => Err(format!("PANIC: {}", crate::engine::panic_text(p))),
+            }
+        };
+        obs.sample(serde_json::json!({
+            "rows": c.rows, "row_group_size": c.layout.row_group_size, "shard_count": c.shard_count, "variant": label,
+            "initiator_splits_relevant_row_groups": inv_i.len(), "worker_row_groups": inv_w.len(),
+        }));
+
+        match &c.variant {
+            Variant::IndexOutOfRange { over } => {
+                obs.nontrivial(true);
+                let idx = c.shard_count.saturating_add(*over);
+                match run(idx, digest) {
+                    Err(e) if e.starts_with("PANIC") => Verdict::Fail(format!("shard index {} of {}: {}", idx, c.shard_count, e)),
+                    Err(_) => Verdict::Pass,
+                    Ok((rows, _)) => Verdict::Fail(format!(
+                        "shard index {} is outside 0..{} but the fragment ran and returned {} rows: {}",
+                        idx,
+                        c.shard_count,
+                        rows.len(),
+                        fmt_rows(&rows, 5)
+                    )),
+                }
+            }
+            Variant::ForeignDigest { xor } => {
+                if *xor == 0 {
+                    return Verdict::Discard("xor = 0 is the initiator's digest".into());
+                }
+                obs.nontrivial(true);
+                for idx in 0..c.shard_count {
+                    if let Ok((rows, _)) = run(idx, digest ^ xor) {
+                        return Verdict::Fail(format!(
+                            "request carries digest {:#x}, the table's is {:#x}, yet shard {} of {} ran and returned {} rows",
+                            digest ^ xor,
+                            digest,
+                            idx,
+                            c.shard_count,
+                            rows.len()
+                        ));
+                    }
+                }
+                Verdict::Pass
+            }
+            Variant::Identical => {
+                obs.nontrivial(c.shard_count >= 2 && c.rows >= 1);
+                // every fragment must run; together they are the table, once
+                let mut union: Rows = vec![];
+                let (mut cnt, mut sum, mut stat_rows) = (0i64, 0i64, 0i64);
+                for idx in 0..c.shard_count {
+                    match run(idx, digest) {
+                        Err(e) => {
+                            return Verdict::Fail(format!(
+                                "identical copy in another directory, yet shard {} of {} refused: {}",
+                                idx, c.shard_count, e
+                            ))
+                        }
+                        Ok((rows, srows)) => {
+                            stat_rows += srows;
+                            if c.aggregate_sql {
+                                match rows.first().map(|r| (r[0].clone(), r[1].clone())) {
+                                    Some((Value::Int(n), Value::Int(s))) => {
+                                        cnt += n;
+                                        sum += s;
+                                    }
+                                    Some((Value::Int(n), Value::Null)) => cnt += n,
+                                    other => return Verdict::Fail(format!("aggregate fragment returned {:?}", other)),
+                                }
+                            } else {
+                                union.extend(rows);
+                            }
+                        }
+                    }
+                }
+                if stat_rows != c.rows as i64 {
+                    return Verdict::Fail(format!("shards report {} assigned rows in total, the table has {}", stat_rows, c.rows));
+                }
+                if c.aggregate_sql {
+                    let want_sum: i64 = (0..c.rows as i64).sum();
+                    if cnt != c.rows as i64 || sum != want_sum {
+                        return Verdict::Fail(format!(
+                            "fragments add up to COUNT={} SUM(id)={}, the table has COUNT={} SUM(id)={}",
+                            cnt, sum, c.rows, want_sum
+                        ));
+                    }
+                } else if !multiset_eq(&union, &table.rows, 0.0) {
+                    let (mut got, mut want) = (union.clone(), table.rows.clone());
+                    canon_sort(&mut got);
+                    canon_sort(&mut want);
+                    return Verdict::Fail(format!(
+                        "union of the {} fragments != table ({} vs {} rows)\n got: {}\nwant: {}",
+                        c.shard_count,
+                        got.len(),
+                        want.len(),
+                        fmt_rows(&got, 30),
+                        fmt_rows(&want, 30)
+                    ));
+                }
+                Verdict::Pass
+            }
+            _ => {
+                obs.nontrivial(true);
+                for idx in 0..c.shard_count {
+                    if let Ok((rows, _)) = run(idx, digest) {
+                        return Verdict::Fail(format!(
+                            "worker copy differs from the initiator's in {} ({}), yet shard {} of {} ran and returned {} rows.\ninitiator footers: {:?}\n   worker footers: {:?}",
+                            describe_difference(&inv_i, &inv_w),
+                            label,
+                            idx,
+                            c.shard_count,
+                            rows.len(),
+                            &inv_i[..inv_i.len().min(12)],
+                            &inv_w[..inv_w.len().min(12)]
+                        ));
+                    }
+                }
+                Verdict::Pass
+            }
+        }
+    }
+}
 
 pub fn property() -> Property {
-    Property { id: "C14", level: "exploration", assumptions: &[], checks: vec![] }
+    Property {
+        id: "C14",
+        level: "exploration",
+        assumptions: &[
+            "split-relevant content = (file name, row-group index, rows, total_byte_size) of every non-empty row group, read by the harness with parquet's SerializedFileReader; a variant that leaves it unchanged is discarded",
+            "the initiator's digest is obtained the way the coordinator obtains it (splits_of(initiator ctx).digest())",
+            "any Err (not a panic for the range check) counts as refusal; the error text is not inspected",
+        ],
+        checks: vec![Box::new(Interlock)],
+    }
 }
